@@ -2,6 +2,7 @@ import TlsProofs.RsaPssSign
 import TlsProofs.RsaInvMod
 import TlsProofs.Dh
 import TlsProofs.Dsa
+import TlsProofs.Der
 import TlsModel.SignGuard
 import TlsModel.Gen.SignSites
 import TlsProofs.X25519
@@ -627,6 +628,29 @@ theorem dsa_verify_bytes_accept (key : Key) (sig data : Bytes) (h : verify key s
               have e2 : rest2 = [] := by simpa using hrest2
               subst e1; subst e2
               exact ⟨body, r, rest1, s, hseq, hr, hs, h⟩
+
+def exDsaPre : Key := { p := 23, q := 11, g := 4, x := 7, y := 8 }
+
+/-- **dsa_sign_verify_bytes.**  Byte level, DER included: what `sign` returns (the DER
+    `SEQUENCE { INTEGER r, INTEGER s }` of python-ecdsa, transliterated) is parsed back to the same pair
+    and accepted by `verify` — for well-formed parameters with q of at most 480 bits, a nonce in
+    (0, q) and r, s ≠ 0. -/
+theorem dsa_sign_verify_bytes {key : Key} (vk : ValidKey key) (hq : numBytes key.q ≤ 60)
+    (k : ℕ) (hk0 : 0 < k) (hkq : k < key.q) (data : Bytes)
+    (hr : (signRS key k data).1 ≠ 0) (hs : (signRS key k data).2 ≠ 0) :
+    verify key (sign key k data) data = true := by
+  have hq0 : 0 < key.q := vk.hq.pos
+  have hrq : (signRS key k data).1 < key.q := by unfold signRS; exact Nat.mod_lt _ hq0
+  have hsq : (signRS key k data).2 < key.q := by unfold signRS; exact Nat.mod_lt _ hq0
+  rw [verify_sign_bytes key k data hq hrq hsq]
+  exact verify_sign vk k hk0 hkq data hr hs
+
+/-- DER round trip of the two helpers `sign` / `verify` rely on (short-form lengths) -/
+theorem der_integer_roundtrip (r : ℕ) (tail : Bytes) (h : numBytes r + 2 < 0x80) :
+    Der.removeInteger (Der.encodeInteger r ++ tail) = .ok (r, tail) :=
+  Der.removeInteger_encodeInteger r tail h
+
+example : verify exDsaPre (sign exDsaPre 3 [0x55]) [0x55] = true := by decide
 
 /-- `verify` refuses `r` or `s` outside `(0, q)` -/
 theorem dsa_rejects_out_of_range (key : Key) (r s : ℕ) (data : Bytes)
